@@ -712,7 +712,9 @@ def w_hrnp_corrupt(task):
             if 2 * wi + 1 < len(b):
                 b[2 * wi + 1] = new & 0xFF
             case = {"packet": label, "bytes": raw.hex(), "word_index": wi, "xor": hex(x)}
-            if {old, new} == {0x0000, 0xFFFF}:
+            if {old, new} == {0x0000, 0xFFFF} and wi != 5:
+                # a *data* word 0x0000 <-> 0xFFFF cannot be seen by any ones-complement sum; the checksum field itself
+                # (bytes 10..11, word 5) is different: the packet was sent with exactly one value there
                 acc.case(nontrivial=False, calls=0, outcome="ones_complement_alias_excluded")
                 continue
             try:
@@ -903,6 +905,32 @@ def run(only=None):
             nwords = (len(raw) + 1) // 2
             tasks += [(ci, lo, hi) for lo, hi in par.chunks(nwords, 4)]
             decl += nwords * len(WORD_XORS)
+        # bases whose correct checksum is 0x0000: the all-ones burst on the check field turns it into the other
+        # representation of zero, which a verifier that sums to zero (instead of comparing) would accept
+        def _fold(raw):
+            tot = 0
+            b = bytes(raw[:10]) + bytes(raw[12:])
+            if len(b) % 2:
+                b += b"\x00"
+            for i in range(0, len(b), 2):
+                tot += (b[i] << 8) | b[i + 1]
+            while tot >> 16:
+                tot = (tot & 0xFFFF) + (tot >> 16)
+            return tot
+        for ci in range(min(3, len(cat))):
+            raw0 = hrnp_build(cat, ci, dict(base_hdr, packet_number=0)).as_bytes()
+            f0 = _fold(raw0)
+            pn = (0xFFFF - f0) % 0xFFFF
+            for cand in (pn, pn + 0xFFFF if pn == 0 else pn):
+                if 0 <= cand <= 0xFFFF:
+                    raw = hrnp_build(cat, ci, dict(base_hdr, packet_number=cand)).as_bytes()
+                    if raw[10:12] == b"\x00\x00":
+                        HRNP_BASES.append((cat[ci][0] + "/checksum_0000", raw))
+                        nwords = (len(raw) + 1) // 2
+                        tasks += [(len(HRNP_BASES) - 1, lo, hi) for lo, hi in par.chunks(nwords, 4)]
+                        decl += nwords * len(WORD_XORS)
+                        break
+        s.extra["bases_with_checksum_0000"] = sum(1 for l, _ in HRNP_BASES if l.endswith("/checksum_0000"))
         s.declared = decl
         for acc in par.pmap(w_hrnp_corrupt, tasks, nw):
             s.merge(acc)
